@@ -23,7 +23,9 @@ DEFAULTS = ['0', '1', '-9.81', '1e-9', '"a;b"', '"x,y"', '"hello world"', 'gtsam
             '"two  spaces   here"', 'f(1,   2)', 'gtsam::Pose3(1,\n      2)', '"tab\there"', 'a  +\tb', '{ 1,\n2 }',
             # comment openers inside literals are text, and so is a parameter's spelling
             '"http://gtsam.org/doc"', '"/* not a comment */"', "'/'", '"a // b"', '1 / 2', '"T and U"', "'T'"]
-HEADERS = ['a.h', 'gtsam/geometry/Pose3.h', 'x/y z.hpp', 'vector', 'my-lib/file_1.h']
+HEADERS = ['a.h', 'gtsam/geometry/Pose3.h', 'x/y z.hpp', 'vector', 'my-lib/file_1.h',
+           # names contained in one another
+           'linalg/FastVector.h', 'Vector.h', 'my_util.h', 'util.h', 'Pose3.h']
 PARAM_NAMES = ['T', 'U', 'POSE', 'CALIBRATION', 'N', 'Val', 'TT', 'K', 'D', 'V']
 CONCRETE_BASIC = ['double', 'int', 'size_t', 'bool', 'float', 'char', 'unsigned char', 'string']
 
@@ -113,7 +115,7 @@ class WildGen:
 
     def member_name(self, upper=False, role='method'):
         if self.r.random() < self.f['special_names']:
-            pool = self.SPECIAL
+            pool = self.SPECIAL + ['print'] * 4
             if role == 'static':
                 pool = [x for x in pool if x not in ('serialize', 'serializable')]
             return self.r.choice(pool)
@@ -216,7 +218,12 @@ class WildGen:
         for i in range(n):
             if allow_default and self.f['defaults'] and (defaulting or self.r.random() < 0.2):
                 defaulting = True
-            out.append(S.Arg(self.type(), self.ident(), self.default() if defaulting else None))
+            nm = self.ident()
+            if self.r.random() < self.f['special_names'] * 0.3:
+                kw = self.r.choice(['lambda', 'in', 'from', 'pass', 'is', 'def', 'global'])
+                if kw not in [a.name for a in out]:
+                    nm = kw
+            out.append(S.Arg(self.type(), nm, self.default() if defaulting else None))
         return tuple(out)
 
     def ret(self):
@@ -443,6 +450,8 @@ class WildGen:
                           - here - set(saved_path))
             if cand:
                 name = r.choice(cand)
+        if self.f['ns_namesakes'] and len(saved_path) >= 2 and saved_path[0] not in here and r.random() < 0.35:
+            name = saved_path[0]          # a namespace named like one of its ancestors: geo::util::geo
         here.add(name)
         self.ns_path = tuple(saved_path) + (name,)
         self._funcs.append([])
